@@ -302,3 +302,7 @@ mod tests {
         );
     }
 }
+
+#[cfg(feature = "pendulum_project_ntpd_rs_verif")]
+#[path = "/verif/hooks/statime-csptp/messages_tlvs.rs"]
+pub mod vh_messages_tlvs;
